@@ -91,6 +91,25 @@ def order_of(expr):
     return None
 
 
+def pair_order(e):
+    """'YX' / 'XY' / None for an expression that evaluates to an ordered pair: a named pair, the same converted by
+    np.array/asarray/tuple, scaled by arithmetic, or the last two axes of a shape (`shape[1:]` of a cube, `shape[-2:]`)."""
+    if isinstance(e, (ast.Name, ast.Attribute)):
+        return order_of(e)
+    if isinstance(e, ast.Call) and unparse(e.func, 0).split('.')[-1] in ('array', 'asarray', 'asanyarray', 'tuple', 'list') \
+            and len(e.args) >= 1:
+        return pair_order(e.args[0])
+    if isinstance(e, ast.BinOp) and isinstance(e.op, (ast.Div, ast.Mult, ast.FloorDiv, ast.Add, ast.Sub)):
+        return pair_order(e.left) or pair_order(e.right)
+    if isinstance(e, ast.Subscript) and isinstance(e.slice, ast.Slice) and e.slice.upper is None and e.slice.step is None \
+            and e.slice.lower is not None and order_of(e.value) == 'YX' and 'shape' in unparse(e.value, 0):
+        lo = e.slice.lower
+        if (isinstance(lo, ast.Constant) and lo.value == 1) or \
+                (isinstance(lo, ast.UnaryOp) and isinstance(lo.op, ast.USub) and isinstance(lo.operand, ast.Constant) and lo.operand.value == 2):
+            return 'YX'
+    return None
+
+
 def tag(e):
     """Axis tag of an expression, or None."""
     if isinstance(e, ast.Name):
@@ -303,8 +322,8 @@ def axis_conflicts(func_node):
             # a, b = pair  (unpacking an ordered pair)
             if isinstance(t, (ast.Tuple, ast.List)) and len(t.elts) == 2 and not isinstance(n.value, (ast.Tuple, ast.List)):
                 vt = tag(n.value)
-                if vt is None and isinstance(n.value, (ast.Attribute, ast.Name)):
-                    o = order_of(n.value)
+                if vt is None:
+                    o = pair_order(n.value)
                     vt = ('P', Y, X) if o == 'YX' else ('P', X, Y) if o == 'XY' else None
                 ta, tb = tag(t.elts[0]), tag(t.elts[1])
                 if isinstance(vt, tuple) and isinstance(ta, str) and isinstance(tb, str):
